@@ -16,7 +16,8 @@ RULE = ("identities drawn over the whole domain (vendor / product-type ids 0..65
         "with 0..5 UDP replies (every third scenario: ListIdentity replies carry a second, unknown item after the identity item); get_plc_info() again after "
         "get_module_info(neighbour slot) in a rack whose modules differ; in 60 % of the rack scenarios a communication module answers ListIdentity and the controller sits behind it "
         "(info / get_plc_info describe the controller); identity dicts with shuffled key order; LogixDriver.open() + get_plc_info + _list_identity for every value 0..255 of the first status byte "
-        "(a third with the addresses 0.0.0.0 / 255.255.255.255 / 0.0.0.1); a quarter of the devices append the optional Identity attributes 8-10 after the name; every returned field is compared with the configured identity; ModuleIdentityObject.decode(encode(d)) == d. "
+        "(a third with the addresses 0.0.0.0 / 255.255.255.255 / 0.0.0.1); a quarter of the devices append the optional Identity attributes 8-10 after the name; discover(broadcast_address=...) positional and by keyword (every datagram goes "
+        "to that address; in half of these scenarios only the unbound attempt is answered); every returned field is compared with the configured identity; ModuleIdentityObject.decode(encode(d)) == d. "
         "distinct = (entry point, vendor known?, type known?, serial nibble class, name length class) evaluated")
 ASSUMPTIONS = [
     "vendor / product-type texts: the ODVA lists as shipped at the pinned commit (vlib/data/identity_tables.json, 1457 vendors / 41 device types); ids added later take the library's text; 'UNKNOWN' otherwise",
@@ -147,6 +148,27 @@ def run(ctx):
             else:
                 for got, idn in zip(devs, idents):
                     compare("_broadcast_discover", got, idn, True)
+            if sc % 5 in (1, 2) and k:
+                # discover(broadcast_address=...): a directed broadcast to another subnet.  Every datagram of the call goes to that
+                # address (the devices never see one sent elsewhere); in every other such scenario the host's own interface addresses
+                # do not reach that subnet, so only the final, unbound attempt is answered
+                ba = rng.choice(["10.1.2.255", "192.168.77.255", "172.16.255.255"])
+                unbound_only = sc % 5 == 2
+
+                def udp2(data, addr, inner=udp, ba=ba, unbound_only=unbound_only):
+                    if addr[0] != ba or (unbound_only and getattr(b.net, "last_udp_bound", None) is not None):
+                        return []
+                    return inner(data, addr)
+                b.net.udp_handler = udp2
+                b.net.udp_destinations = []
+                st, devs = b.call("discover", p.CIPDriver.discover, ba) if rng.random() < 0.5 else b.call("discover", p.CIPDriver.discover, broadcast_address=ba)
+                res.ev()
+                res.seen("discover-directed", unbound_only, k)
+                dests = [d_ for d_ in getattr(b.net, "udp_destinations", [])]
+                if st != "ok" or not isinstance(devs, list) or len(devs) != k or any(d_[0] != ba for d_ in dests):
+                    res.violation("discover:broadcast_address", f"discover(broadcast_address={ba!r}) with {k} devices on that subnet ({'answering the unbound attempt only' if unbound_only else 'answering every attempt'}) "
+                                                                f"returned {len(devs) if isinstance(devs, list) else devs!r} device(s); datagrams went to {sorted({d_[0] for d_ in dests})}", None)
+                b.net.udp_handler = udp
             if sc % 5 == 0:
                 st, devs = b.call("discover", p.CIPDriver.discover)
                 res.ev()
